@@ -53,6 +53,17 @@ CHECKS = {
             "ApplicationClosed with exactly the peer's code and reason bytes (0, empty for FIN), abrupt / malformed terminations must be a local "
             "HTTP/3 error and never ApplicationClosed or Ok; the CONNECTION_CLOSE code the peer sees is checked too.",
             SIM_NOTE, "exhaustive enumeration of a bounded scenario grid executed on the real stack under a deterministic simulated environment"),
+    "C05": ("simx", "exploration", "DESIGN.md §6-C05",
+            "Metamorphic: a raw peer (both roles) sends each control-plane message - control stream type + SETTINGS (plain and with GREASE "
+            "frame / unknown settings), CONNECT request HEADERS, CONNECT response HEADERS, GREASE + unknown capsule + unknown frame on the "
+            "established session stream, GREASE + close capsule on it - cut at every single position (every pair for short messages), with "
+            "one of 7 events between the pieces (nothing, own datagram, foreign datagram, complete WT uni stream, complete WT bidi stream, "
+            "GREASE frame on the other critical stream, QPACK encoder stream), with and without a virtual-time settle before / after the "
+            "event, plus every single (thorough: pairs of) non-zero select! start index among the worker's 9-branch and 5-branch select "
+            "polls in the window. The outcome class (session established and a probe stream delivered / terminated with exactly (code, "
+            "reason) / error / hang) and the required deliveries must equal those of the unsegmented baseline of the same message.",
+            SIM_NOTE + " The multi-thread runtime named in the property's quantifier is not covered (see DESIGN.md §8).",
+            "exhaustive enumeration of cut positions x interleaved events x select! branch-start choices on the real driver (deterministic simulation), metamorphic oracle"),
     "C06": ("simx", "exploration", "DESIGN.md §6-C06",
             "wt<->wt and raw<->wt (raw peer as writer and as reader, both roles) x six data directions x {reset(c), stop(c), finish, finish "
             "with all acknowledgements withheld and later released} x phase {before any byte, after k bytes written and read, written and "
